@@ -28,7 +28,15 @@ SYSR = "wannierberri/system/system_R.py"
 RVEC = "wannierberri/fourier/rvectors.py"
 INTP = "wannierberri/system/interpolate.py"
 PATHF = "wannierberri/grid/path.py"
+TABF = "wannierberri/result/tabresult.py"
 MUTANTS = [
+    dict(prop="C30", name="to_grid: index uses grid[0] stride", file=TABF, old="ind_grid = kpoints_int[:, 2] + grid[2] * (kpoints_int[:, 1] + grid[1] * kpoints_int[:, 0])", new="ind_grid = kpoints_int[:, 2] + grid[2] * (kpoints_int[:, 1] + grid[0] * kpoints_int[:, 0])"),
+    dict(prop="C30", name="to_grid: meshgrid xy indexing", file=TABF, old="indexing='ij')).reshape((3, -1), order=order).T", new="indexing='xy')).reshape((3, -1), order=order).T"),
+    dict(prop="C30", name="to_grid: no modulo (k outside the cell)", file=TABF, old="        kpoints_int = kpoints_int % grid[None, :]\n", new="        kpoints_int = abs(kpoints_int) % grid[None, :]\n"),
+    dict(prop="C30", name="K__Result.to_grid: sum not mean", file=RES_K, old="data = np.array([sum(dataall[ik] for ik in km) / len(km) for km in k_map])", new="data = np.array([sum(dataall[ik] for ik in km) / max(1, len(km) - 1 + (len(km) == 1)) if len(km) > 2 else sum(dataall[ik] for ik in km) / len(km) for km in k_map])"),
+    dict(prop="C30", name="get_component: tuple applied in forward order", file=RES_K, old="        for k in component[-1::-1]:", new="        for k in component:"),
+    dict(prop="C30", name="get_component: trace sums only x,y", file=RES_K, old="return sum([_data[((i,) * ndim)] for i in range(3)])", new="return sum([_data[((i,) * ndim)] for i in range(2 if ndim == 3 else 3)])"),
+    dict(prop="C30", name="find_grid: floor instead of round", file=TABF, old="            grid[i] = int(np.round(1. / dk))", new="            grid[i] = int(1. / dk)"),
     dict(prop="C29", name="from_nodes: endpoint=True sampling", file=PATHF, old="np.linspace(0, 1., _nk - 1, endpoint=False)", new="np.linspace(0, 1., _nk - 1, endpoint=(_nk == 2))"),
     dict(prop="C29", name="from_nodes: break index off by one", file=PATHF, old="                breaks.append(K_list.shape[0] - 1)", new="                breaks.append(K_list.shape[0])"),
     dict(prop="C29", name="from_nodes: label of segment end", file=PATHF, old="                new_labels[K_list.shape[0]] = l1\n                start = np.array(start)", new="                new_labels[K_list.shape[0]] = l2\n                start = np.array(start)"),
